@@ -117,6 +117,26 @@ fn run_node(node: &Path, dir: &Path, args: &[&str], timeout: Duration) -> RunRes
     Ok(c) => c,
     Err(e) => return RunResult { lines: vec![], end: format!("no-node:{e}") },
   };
+  // Drain both pipes while the child runs: a program that prints more than the pipe buffer (64 KiB)
+  // would otherwise block in write() until the timeout (node writes to pipes asynchronously and then
+  // sits in its event loop) and be misreported as `timeout`.
+  use std::io::Read;
+  let mut so = child.stdout.take();
+  let mut se = child.stderr.take();
+  let t_out = std::thread::spawn(move || {
+    let mut buf = Vec::new();
+    if let Some(s) = so.as_mut() {
+      let _ = s.read_to_end(&mut buf);
+    }
+    buf
+  });
+  let t_err = std::thread::spawn(move || {
+    let mut buf = Vec::new();
+    if let Some(s) = se.as_mut() {
+      let _ = s.read_to_end(&mut buf);
+    }
+    buf
+  });
   let start = std::time::Instant::now();
   let mut timed_out = false;
   loop {
@@ -125,6 +145,7 @@ fn run_node(node: &Path, dir: &Path, args: &[&str], timeout: Duration) -> RunRes
       Ok(None) => {
         if start.elapsed() > timeout {
           let _ = child.kill();
+          let _ = child.wait();
           timed_out = true;
           break;
         }
@@ -133,10 +154,8 @@ fn run_node(node: &Path, dir: &Path, args: &[&str], timeout: Duration) -> RunRes
       Err(_) => break,
     }
   }
-  let out = child.wait_with_output().ok();
-  let (stdout, stderr) = out
-    .map(|o| (String::from_utf8_lossy(&o.stdout).to_string(), String::from_utf8_lossy(&o.stderr).to_string()))
-    .unwrap_or_default();
+  let stdout = String::from_utf8_lossy(&t_out.join().unwrap_or_default()).to_string();
+  let stderr = String::from_utf8_lossy(&t_err.join().unwrap_or_default()).to_string();
   let mut lines: Vec<String> = stdout.split('\n').map(|s| s.to_string()).collect();
   if lines.last().map(|l| l.is_empty()).unwrap_or(false) {
     lines.pop();
